@@ -139,7 +139,7 @@ def exGene2 : Gene :=
     quals := [], txs := [exTx2] }
 /-- the two genes alone (effective tags `g1` < `h_2`) -/
 def exGene2' : Gene := { exGene2 with locusTag := some "h_2".toList }
-def exColl2 : Coll := ⟨none, [.gene exGene, .gene exGene2']⟩
+def exColl2 : Coll := ⟨some "ACGTACGT".toList, [.gene exGene, .gene exGene2']⟩
 def exCfg2 : Cfg := ⟨.eukaryotic, true, false, currentWriterRule⟩
 def exRs2 : List Rec :=
   match mapMR (itemToFeatures exCfg2 exColl2.seq) exColl2.items with
@@ -149,7 +149,7 @@ def exFc : FColl :=
   { name := none, id := some "fc1".toList, type := none, locusTag := none, quals := [],
     feats := [{ strand := .plus, blocks := [(70, 72), (75, 80)], featName := some "F".toList, featId := none,
                 types := ["promoter".toList], quals := [] }] }
-def exColl : Coll := ⟨none, [.gene exGene, .gene exGene2, .fcoll exFc]⟩
+def exColl : Coll := ⟨some "ACGTACGT".toList, [.gene exGene, .gene exGene2, .fcoll exFc]⟩
 def exCfg : Cfg := ⟨.eukaryotic, true, false, currentWriterRule⟩
 
 example : writeDomain exColl = true := by decide +kernel
@@ -194,7 +194,7 @@ example : writeModel exCfg2 exColl2 = .ok exRs2 ∧ (∀ it ∈ exColl2.items, G
     unfold exRs2
     cases h : mapMR (itemToFeatures exCfg2 exColl2.seq) exColl2.items with
     | error e => rw [h] at hok; exact absurd hok (by simp [Except.toBool])
-    | ok rss => rfl
+    | ok rss => simp [exColl2]
   · intro it hit
     simp only [exColl2, List.mem_cons, List.not_mem_nil, or_false] at hit
     rcases hit with rfl | rfl
